@@ -35,6 +35,7 @@ class VirtualTime:
     def __init__(self, epoch=1700000000.0):
         self.now = 0.0
         self.epoch = epoch
+        self.wall_offset = 0.0  # wall-clock jumps (NTP step, operator): time.time() only, monotonic is unaffected
         self._saved = {}
 
     def advance(self, d):
@@ -45,11 +46,11 @@ class VirtualTime:
 
         for n in self.NAMES:
             self._saved[n] = getattr(_t, n)
-        _t.time = lambda: self.epoch + self.now
+        _t.time = lambda: self.epoch + self.now + self.wall_offset
         _t.monotonic = lambda: 1000.0 + self.now
         _t.perf_counter = lambda: 1000.0 + self.now
         _t.sleep = lambda d: self.advance(d)
-        _t.time_ns = lambda: int((self.epoch + self.now) * 1e9)
+        _t.time_ns = lambda: int((self.epoch + self.now + self.wall_offset) * 1e9)
         _t.monotonic_ns = lambda: int((1000.0 + self.now) * 1e9)
         return self
 
